@@ -2,6 +2,7 @@
      wt.sess S npre en
      wt.open <bi|uni> S npre en wb payload
      wt.recv <bi|uni> S npre en early mode history
+     wt.recv2 S en mode history          two uni streams (items a:.. / b:..): two independent single-stream models
    npre / early do not exist in the model: one session, one stream.  Prints `<model> | <spec>`. *)
 let sub1 s = String.sub s 1 (String.length s - 1)
 let parse_hist s =
@@ -13,7 +14,26 @@ let parse_hist s =
      else if t.[0] = 'c' then Arrive (Chunk (bytes_of_hex (sub1 t)))
      else failwith ("bad history item " ^ t)) (String.split_on_char ',' s))
   @ [Poll]
-let mode_of s = if s = "d" then ModeData else ModeRead (n_of_string (sub1 s))
+(* mode: d | r<k> | t<k>, optionally prefixed by s (split, bidi only) *)
+let split_of s = String.length s > 0 && s.[0] = 's'
+let mode_of s =
+  let s = if split_of s then sub1 s else s in
+  if s = "d" then ModeData
+  else if s.[0] = 't' then ModeTokio (n_of_string (sub1 s))
+  else ModeRead (n_of_string (sub1 s))
+let parse_item t =
+  if t = "F" then Arrive Fin
+  else if t.[0] = 'R' then Arrive (Reset (n_of_string (sub1 t)))
+  else if t.[0] = 'c' then Arrive (Chunk (bytes_of_hex (sub1 t)))
+  else failwith ("bad history item " ^ t)
+(* wt.recv2: the items of one of the two streams, every poll kept *)
+let project tag s =
+  (if s = "-" then [] else
+   List.concat (List.map (fun t ->
+     if t = "p" then [Poll]
+     else if String.length t > 2 && t.[0] = tag && t.[1] = ':' then [parse_item (String.sub t 2 (String.length t - 2))]
+     else []) (String.split_on_char ',' s)))
+  @ [Poll]
 let pieces out = if out = [] then "-" else String.concat "." (List.map hex_of_bytes out)
 let ending = function
   | EFin -> "fin" | EReset c -> "reset:" ^ string_of_n c | EPanic _ -> "panic" | EOutOfFuel -> "out-of-fuel"
@@ -74,7 +94,7 @@ let handle ws = match ws with
               | RtPanic _ -> None
               | RtPending _ | RtSurfaced _ -> Some "model-bug")
         end else begin
-          let st = bidi_run m h in
+          let st = bidi_run (split_of mode) m h in
           match st.b_ph with
           | BAccepting _ -> Some ("nostream " ^ quiet)
           | BReading (i, _) -> Some (Printf.sprintf "bi sid=%s data=%s end=pending %s" (string_of_n i) (pieces st.b_out) quiet)
@@ -86,5 +106,33 @@ let handle ws = match ws with
       let cs = string_of_n (wt_session_of_connect s) in
       let obs = if kind = "uni" then wt_expect_uni en (flat h) (wt_end_of h) else wt_expect_bidi (flat h) (wt_end_of h) in
       mline ^ " | " ^ spec_obs kind cs obs
+  | ["wt.recv2"; s; en; mode; hist] ->
+      let s = n_of_string s in
+      let m = mode_of mode in
+      let en = en <> "0" in
+      let sess = string_of_n (session_of_stream s) in
+      let cs = string_of_n (wt_session_of_connect s) in
+      let one tag =
+        let h = project tag hist in
+        let st = uni_run en m h in
+        let md = (match st.u_ph with
+          | UAccepting _ -> Some "nostream stop=-"
+          | UReading (i, _) -> Some (Printf.sprintf "uni sid=%s data=%s end=pending stop=-" (string_of_n i) (pieces st.u_out))
+          | UEnded (i, e) -> Some (Printf.sprintf "uni sid=%s data=%s end=%s stop=-" (string_of_n i) (pieces st.u_out) (ending e))
+          | UNever r -> (match r with
+              | RtRemoved | RtDropped -> Some "nostream stop=-"
+              | RtStopped c -> Some ("nostream stop=" ^ string_of_n c)
+              | RtOther t -> Some ("other " ^ string_of_n t)
+              | _ -> None)) in
+        let sp = (match wt_expect_uni en (flat h) (wt_end_of h) with
+          | ObsStream (i, p, e) -> Printf.sprintf "uni sid=%s data=%s end=%s stop=-" (string_of_n i) (hex_of_bytes p) (spec_end e)
+          | ObsNothing -> "nostream stop=-"
+          | ObsUnconstrained -> "nostream *") in
+        (md, sp) in
+      let (ma, sa) = one 'a' and (mb, sb) = one 'b' in
+      let mline = (match ma, mb with
+        | Some a, Some b -> Printf.sprintf "ok sess=%s A %s B %s close=-" sess a b
+        | _ -> "panic") in
+      mline ^ " | " ^ Printf.sprintf "ok sess=%s A %s B %s close=-" cs sa sb
   | _ -> "driver-error unknown-case"
 let () = run_lines handle
